@@ -221,7 +221,8 @@ CLAIMS = {
              "scope set of every attached token and CleanScopes against the canonical form.",
         note="Redirects performed by net/http below the auth client are not modelled. The single-context cache is documented to "
              "ignore scopes; ReuseKey is instantiated with host only for it. "
-             "Coalescing rounds may contain a request with a deadline whose credential lookup waits for it; resource names with colons in scope strings. Fixed in /repo: F20.",
+             "Coalescing rounds may contain a request with a deadline whose credential lookup waits for it; resource names with colons in scope strings. "
+             "Scripted alias scenarios: a registry used anonymously whose challenge names the other registry's host as its service (per-registry realm URLs, tokfor). Fixed in /repo: F20.",
         ref="3 C16", technique=TECH + " (AuthMon.tla; gate-level schedules of concurrent requests)"),
     "C17": dict(
         text="Retry.tla transcribes retry.Transport.RoundTrip (attempt loop, policy decision, rewind through GetBody, pause, "
